@@ -187,6 +187,29 @@ const LITERALS: &[&str] = &[
     "\"package_sim1pkgxxxxxxxxxpackgexxxxxxxxx000726633226xxxxxxxxxlk8hc9\"", "\"5b4b01a4a3892ea3751793da57f072ae08eec694ddcda872239fc8239e4bcd1b\"", "\"deadbeef\"", "\"xyz\"",
     "\"bucket1\"", "\"proof1\"", "\"reservation1\"", "\"address1\"", "\"intent1\"",
 ];
+/// Statements that reach rarer generator errors (each is LF text; they get mutated / re-ended too).
+const CRAFTED: &[&str] = &[
+    "CALL_METHOD Address(\"component_sim1cptxxxxxxxxxfaucetxxxxxxxxx000527798379xxxxxxxxxhkrefh\") \"f\" Array<Intent>();\n",
+    "CALL_METHOD Address(\"component_sim1cptxxxxxxxxxfaucetxxxxxxxxx000527798379xxxxxxxxxhkrefh\") \"f\" Map<NamedIntent, U8>();\n",
+    "CALL_METHOD Address(\"component_sim1cptxxxxxxxxxfaucetxxxxxxxxx000527798379xxxxxxxxxhkrefh\") \"f\" Tuple(Intent(\"x\"));\n",
+    "CALL_METHOD Address(\"component_sim1cptxxxxxxxxxfaucetxxxxxxxxx000527798379xxxxxxxxxhkrefh\") \"f\" NamedIntent(\"x\");\n",
+    "TAKE_NON_FUNGIBLES_FROM_WORKTOP\n    Address(\"resource_sim1tknxxxxxxxxxradxrdxxxxxxxxx009923554798xxxxxxxxxakj8n3\")\n    Array<U8>()\n    Bucket(\"b\")\n;\n",
+    "RETURN_TO_WORKTOP Bucket(5u32);\n",
+    "DROP_PROOF Proof(3u32);\n",
+    "CLONE_PROOF Proof(3u32) Proof(\"p\");\n",
+    "CALL_METHOD Address(\"component_sim1cptxxxxxxxxxfaucetxxxxxxxxx000527798379xxxxxxxxxhkrefh\") \"f\" AddressReservation(9u32) NamedAddress(7u32);\n",
+    "CALL_METHOD Address(\"component_sim1cptxxxxxxxxxfaucetxxxxxxxxx000527798379xxxxxxxxxhkrefh\") \"f\" NamedAddress(7u32);\n",
+    "CALL_METHOD NamedAddress(7u32) \"f\";\n",
+    "CALL_FUNCTION NamedAddress(\"nope\") \"B\" \"f\";\n",
+    "USE_CHILD NamedIntent(\"a\") Intent(\"subtxid_sim1lgheg0xznpqxzaes25pppu9409wur2pqwgl958yy6ncyjc9r9v8sxu2lxx\");\nUSE_CHILD NamedIntent(\"b\") Intent(\"subtxid_sim1lgheg0xznpqxzaes25pppu9409wur2pqwgl958yy6ncyjc9r9v8sxu2lxx\");\n",
+    "USE_CHILD NamedIntent(\"a\") Intent(\"subtxid_sim1lgheg0xznpqxzaes25pppu9409wur2pqwgl958yy6ncyjc9r9v8sxu2lxx\");\nYIELD_TO_CHILD NamedIntent(\"a\") Proof(0u32);\nYIELD_TO_CHILD NamedIntent(\"zz\");\n",
+    "TAKE_ALL_FROM_WORKTOP Address(\"resource_sim1tknxxxxxxxxxradxrdxxxxxxxxx009923554798xxxxxxxxxakj8n3\") Bucket(\"b\");\nCREATE_PROOF_FROM_BUCKET_OF_ALL Bucket(\"b\") Proof(\"p\");\nRETURN_TO_WORKTOP Bucket(\"b\");\n",
+    "ASSERT_BUCKET_CONTENTS Bucket(1u32) Enum<0u8>();\n",
+    "VERIFY_PARENT Enum<9u8>();\n",
+    "ASSERT_WORKTOP_RESOURCES_ONLY Map<Address, Enum>(Address(\"resource_sim1tknxxxxxxxxxradxrdxxxxxxxxx009923554798xxxxxxxxxakj8n3\") => Enum<77u8>());\n",
+    "CALL_METHOD Address(\"component_sim1cptxxxxxxxxxfaucetxxxxxxxxx000527798379xxxxxxxxxhkrefh\") \"f\" Array<U8>(1u16);\n",
+    "CALL_METHOD Address(\"component_sim1cptxxxxxxxxxfaucetxxxxxxxxx000527798379xxxxxxxxxhkrefh\") \"f\" Bytes(1u8) Decimal(1u8) PreciseDecimal(Tuple()) Blob(\"00\") Expression(\"X\") NonFungibleLocalId(\"?\") NonFungibleGlobalId(\"x:y\");\n",
+];
 const WIDE_CHARS: &[char] = &['é', 'ß', '中', '\u{1f600}', '\u{10ffff}', '\u{301}', '\u{200f}', '\u{feff}', '\u{a0}', '\u{fffd}'];
 const BREAK_CHARS: &[&str] = &["\n", "\r\n", "\r", "\u{85}", "\u{2028}", "\u{2029}", "\u{b}", "\u{c}", "\n\r", "\r\r\n"];
 
@@ -251,6 +274,7 @@ fn seed_text(rng: &mut Rng) -> (String, Kind) {
             extra_blobs: false,
             aliases: true,
             deep_chain_pct: 0,
+            ill_formed_pct: 0,
         };
         let g = gen_manifest(rng, &cfg);
         if let Ok(t) = decompile_any(&g.manifest, &net) {
@@ -462,7 +486,22 @@ pub fn gen_text(rng: &mut Rng) -> (&'static str, String, Kind) {
             };
             ("mutant-other-line-endings", m, k)
         }
-        90..=94 => {
+        90..=91 => {
+            let mut t = String::new();
+            let n = rng.range(1, 3);
+            for _ in 0..n {
+                t.push_str(*rng.pick(CRAFTED));
+            }
+            if rng.bool() {
+                let (s, _) = seed_text(rng);
+                t = if rng.bool() { format!("{s}{t}") } else { format!("{t}{s}") };
+            }
+            let mode = rng.below(8);
+            let t = if mode < 7 { line_endings(rng, &t, mode) } else { t };
+            let t = if rng.chance(1, 3) { mutate_chars(rng, &t, 1) } else { t };
+            ("crafted-rare-errors", t, any_kind)
+        }
+        92..=94 => {
             // wrong kind for a valid text, pseudo instructions in the wrong place
             let (t, _) = seed_text(rng);
             let t = match rng.below(3) {
@@ -504,7 +543,7 @@ pub fn spec() -> Spec {
     .floor("diagnostics_rendered", 50_000)
     .floor("error_with_cr_in_text", 4_000)
     .floor("error_with_non_ascii_in_text", 4_000)
-    .floor("error_classes_seen", 30)
+    .floor("error_classes_seen", 40)
     .floor("distinct_nontrivial", 20_000)
     .explain(
         "Each case = (text, kind, blob provider): 2 compiles, 2 x 2 renderings of the error, 1 pretty-error call. Texts: random bytes / scalars, token \
@@ -517,7 +556,7 @@ pub fn spec() -> Spec {
 pub fn run(args: &Args) -> Report {
     let mut report = Report::new(args, spec());
     let budget = Duration::from_secs(budget_secs(args.tier, 35, 540));
-    let cap = scaled(args, args.tier.pick(300_000, 30_000_000)) / args.threads as u64 + 1;
+    let cap = scaled(args, args.tier.pick(2_500_000, 80_000_000)) / args.threads as u64 + 1;
     report.run_shards(31, args.threads, budget, |idx, rng, shard| {
         let mut i = 0u64;
         let mut evals = 0u64;
